@@ -19,6 +19,6 @@ Definition contract_4by2 (w : Z) (f : Z -> Z -> Z -> Z * Z) : Prop :=
   forall d lo hi, norm2 w d -> 0 <= lo < B w * B w -> 0 <= hi < d ->
   f d lo hi = ((lo + B w * B w * hi) / d, (lo + B w * B w * hi) mod d).
 Definition contract_mul_sub (w : Z) (f : list Z -> list Z -> list Z -> list Z * Z) : Prop :=
-  forall c a b c' k, wf w c -> wf w a -> wf w b -> (length a + length b <= length c)%nat ->
+  forall c a b c' k, wf w c -> wf w a -> wf w b -> length c = (length a + length b)%nat ->
   f c a b = (c', k) ->
   wf w c' /\ length c' = length c /\ value w c' + B w ^ len c * k = value w c - value w a * value w b.
